@@ -58,11 +58,12 @@ else:
     d1, o1 = sh("/venv/bin/python demo_seed.py", cwd=wt, timeout=900, env=env)
     open(out + "/demo_patched.log", "w").write(o1[-4000:])
     os.remove(wt + "/demo_seed.py")
-    rc, so = sh("/venv/bin/python -m pytest -q -p no:cacheprovider --timeout=900 2>&1 | tail -5", cwd=wt, timeout=2400)
+    rc, so = sh("/venv/bin/python -m pytest -q -p no:cacheprovider --timeout=900 2>&1 | tail -80", cwd=wt, timeout=2400)
     m = re.search(r"(\d+) passed", so)
     f = re.search(r"(\d+) failed", so)
+    summ = [l for l in so.splitlines() if re.search(r"\d+ (passed|failed)", l)]
     meta["suite"] = {"passed": int(m.group(1)) if m else None, "failed": int(f.group(1)) if f else 0,
-                     "tail": so.strip().splitlines()[-1] if so.strip() else ""}
+                     "tail": summ[-1].strip() if summ else so.strip()[-200:]}
     meta["demo_exit_unchanged_tree"] = d0
     meta["demo_exit_with_patch"] = d1
     meta["confirmed"] = (d0 == 0 and d1 == 1 and meta["suite"]["passed"] == 534 and not meta["suite"]["failed"])
